@@ -18,16 +18,30 @@ Definition mask_check : bool :=
              (beq_bits (firstn r (byte_bits x)) (firstn r (byte_bits y)))) [1;2;3;4;5;6;7]%nat) all_bytes) all_bytes.
 Lemma mask_check_ok : mask_check = true.
 Proof. vm_compute. reflexivity. Qed.
+(* the same sweep stated on the unfolded term, so that using it needs no conversion through the constant *)
+Lemma mask_sweep :
+  forallb (fun x => forallb (fun y => forallb (fun r =>
+    Bool.eqb (N.land x (nth r Consts.prefix_mask 0) =? N.land y (nth r Consts.prefix_mask 0))
+             (beq_bits (firstn r (byte_bits x)) (firstn r (byte_bits y)))) [1;2;3;4;5;6;7]%nat) all_bytes) all_bytes = true.
+Proof. vm_compute. reflexivity. Qed.
+
+Lemma forallb3 {A B C} (P : A -> B -> C -> bool) la lb lc :
+  forallb (fun x => forallb (fun y => forallb (fun r => P x y r) lc) lb) la = true ->
+  forall x y r, In x la -> In y lb -> In r lc -> P x y r = true.
+Proof.
+  intros H x y r Hx Hy Hr. rewrite forallb_forall in H. specialize (H x Hx).
+  rewrite forallb_forall in H. specialize (H y Hy). rewrite forallb_forall in H. exact (H r Hr).
+Qed.
 
 Lemma mask_fact x y r : x < 256 -> y < 256 -> (1 <= r <= 7)%nat ->
   (N.land x (nth r Consts.prefix_mask 0) =? N.land y (nth r Consts.prefix_mask 0)) =
   beq_bits (firstn r (byte_bits x)) (firstn r (byte_bits y)).
 Proof.
-  intros Hx Hy Hr. pose proof mask_check_ok as M. unfold mask_check in M.
-  rewrite forallb_forall in M. specialize (M x (all_bytes_complete x Hx)).
-  rewrite forallb_forall in M. specialize (M y (all_bytes_complete y Hy)).
-  rewrite forallb_forall in M. assert (I : In r [1;2;3;4;5;6;7]%nat) by (simpl; lia).
-  specialize (M r I). apply eqb_prop in M. exact M.
+  intros Hx Hy Hr. assert (I : In r [1;2;3;4;5;6;7]%nat) by (cbn [In]; lia).
+  apply eqb_prop.
+  exact (forallb3 (fun x y r => Bool.eqb (N.land x (nth r Consts.prefix_mask 0) =? N.land y (nth r Consts.prefix_mask 0))
+                                 (beq_bits (firstn r (byte_bits x)) (firstn r (byte_bits y)))) _ _ _ mask_sweep x y r
+           (all_bytes_complete x Hx) (all_bytes_complete y Hy) I).
 Qed.
 
 (* byte_bits is injective on bytes *)
